@@ -255,6 +255,7 @@ CLAIMED = {
     ),
     'C17': dict(
         text='Batch._async_run numbering loop as a verified checker (nested loop invariants): on a normal exit job k of the list has _job_id k+1 and every dependency of every job has a strictly smaller number, self._jobs is handed to the backend in that order, BatchException only when some dependency does not come earlier; the check precedes the backend call (AST). '
+        'Job.depends_on: every argument, the job itself included, is added to the dependency set (loop invariant). '
         'Job._interpolate_command.handler: a resource produced by another job makes that job a dependency whether or not the job is always-run, and is registered as input/output. '
         'LocalBackend._async_run: the job loop is sliced mechanically to its skip logic and verified with a loop invariant (a job is marked cancelled iff it is not always-run and a parent failed or was skipped; processed jobs are bad iff they ran and failed or were skipped): the jobs skipped are exactly the non-always-run jobs with a failed or skipped parent, an error is reported iff a job that ran failed; cancel_child_jobs under its own loop contract.',
         note=COMMON_NOTE + 'Assumed: the DFS builds a duplicate-free, dependency-closed list (not under contract; hence "a DAG is never falsely rejected" is undecided); cyclic relations admit no topological numbering (paper lemma); the slice drops the shell-generating statements (listed in evidence), run_code is an oracle; child relation = inverse dependencies (AST obligation). '
